@@ -37,4 +37,14 @@ def run(tier, seed):
     run_contracts(pack, [(Q.pflow_fg_update('C09'),), (Q.tds_fg_update('C09'),), (Q.call_models('C09'),), (Q.model_l_update_var('C09'),),
                          (Q.model_l_check_eq('C09', True),), (Q.model_l_check_eq('C09', False),)] +
                   [(Q.delegation('C09', n, m),) for n, m in (('l_update_var', 'l_update_var'), ('l_update_eq', 'l_check_eq'))])
+    from contracts.packutil import native_guard
+    from contracts import bounded_limiters_run as BLR
+    lname = 'C09/andes/core/discrete.py:Limiter;AntiWindup/bounded:flags-partition-and-limited-quantities-inside-limits-during-simulations'
+    r = native_guard(pack, lname, BLR.run)
+    if r is not None:
+        nl, badl = r
+        pack.bounded.append({'function': 'Limiter / AntiWindup during TDS runs (end to end)', 'limiter_instants': nl, 'counted_as_proved': False,
+                             'kind': 'bounded native: %s, inspected at several instants' % ', '.join(c for c, _ in BLR.CASES)})
+        if badl:
+            pack.violation(lname, {'bounded': True, 'inputs': badl, 'native_cmd': 'contracts/bounded_limiters_run.py'})
     return pack.finish()
